@@ -10,6 +10,7 @@ import (
 
 	. "verifharness/hlib"
 
+	"github.com/henrylee2cn/erpc/v6/codec"
 	"github.com/henrylee2cn/erpc/v6/socket"
 	"github.com/henrylee2cn/erpc/v6/utils"
 	"github.com/henrylee2cn/erpc/v6/xfer"
@@ -397,11 +398,28 @@ func applyMsg(m socket.Message, o mop) []string {
 		}
 	case "reset":
 		m.Reset()
+	case "pack":
+		if fr, ok := packRaw(m); ok {
+			return []string{VB(fr)}
+		}
+		return []string{VS("err")}
 	case "get":
 		return []string{showMsg(m, true)}
 	}
 	return nil
 }
+
+// freeCodecIDs are body codec ids under which no codec is registered (plus NilCodecID), so
+// that marshalling a non-byte body is an error whatever the id (as in the model).
+var freeCodecIDs = func() []int64 {
+	ids := []int64{0}
+	for i := 1; i < 256; i++ {
+		if _, err := codec.Get(byte(i)); err != nil {
+			ids = append(ids, int64(i))
+		}
+	}
+	return ids
+}()
 
 func genIDs(r *rand.Rand, allowBad bool) []byte {
 	n := r.Intn(4)
@@ -446,7 +464,7 @@ func genMop(r *rand.Rand, p *keyPool) mop {
 	case k < 55:
 		return mop{k: "meta", a: genAop(r, p)}
 	case k < 61:
-		return mop{k: "codec", n: int64(r.Intn(256))}
+		return mop{k: "codec", n: freeCodecIDs[r.Intn(len(freeCodecIDs))]}
 	case k < 69:
 		switch r.Intn(4) {
 		case 0:
@@ -467,24 +485,26 @@ func genMop(r *rand.Rand, p *keyPool) mop {
 		return mop{k: "size", n: sizes[r.Intn(len(sizes))]}
 	case k < 94:
 		return mop{k: "ctx", n: int64(1 + r.Intn(50)), nilt: r.Intn(4) == 0}
-	case k < 96:
+	case k < 95:
 		return mop{k: "reset"}
+	case k < 98:
+		return mop{k: "pack"}
 	default:
 		return mop{k: "get"}
 	}
 }
 
 // packRaw packs the message with the repository's default protocol into memory.
-func packRaw(m socket.Message) string {
+func packRaw(m socket.Message) ([]byte, bool) {
 	buf := &bytes.Buffer{}
 	proto := socket.RawProtoFunc(buf)
 	if err := proto.Pack(m); err != nil {
-		return "err"
+		return nil, false
 	}
-	return Hx(buf.Bytes())
+	return buf.Bytes(), true
 }
 
-func runMsgCase(cfg *RunCfg, st *Stats, idx int) *history {
+func runMsgCase(cfg *RunCfg, st *Stats) *history {
 	r := cfg.Rng
 	p := newKeyPool(r)
 	h := &history{kind: "msg"}
@@ -501,13 +521,14 @@ func runMsgCase(cfg *RunCfg, st *Stats, idx int) *history {
 		dirty = append(dirty, mop{k: "seq", z: -7}, mop{k: "mtype", n: 3}, mop{k: "sm", b: []byte("/old/method")},
 			mop{k: "status", st: &stSpec{code: 500, msg: "old", hasCause: true, cause: "old cause"}},
 			mop{k: "meta", a: aop{k: "add", key: []byte("old-key"), val: []byte("old-value")}},
-			mop{k: "codec", n: 'j'}, mop{k: "body", body: "bytes", b: []byte("old body")}, mop{k: "newbody", n: 9},
+			mop{k: "codec", n: freeCodecIDs[len(freeCodecIDs)-1]}, mop{k: "body", body: "bytes", b: []byte("old body")}, mop{k: "newbody", n: 9},
 			mop{k: "xfer", b: []byte{1, 2}}, mop{k: "size", n: 4242}, mop{k: "ctx", n: 5})
 	}
 	for i, n := 0, r.Intn(8); i < n; i++ {
 		later = append(later, genMop(r, p))
 	}
-	later = append(later, mop{k: "get"})
+	// the next user sets only new fields, transmits, and looks at every getter
+	later = append(later, mop{k: "get"}, mop{k: "pack"}, mop{k: "get"})
 	m := socket.GetMessage()
 	for _, o := range dirty {
 		applyMsg(m, o)
@@ -532,16 +553,7 @@ func runMsgCase(cfg *RunCfg, st *Stats, idx int) *history {
 		h.fresh = append(h.fresh, applyMsg(fresh, o)...)
 	}
 	h.human = fmt.Sprintf("msg dirty=%s later=%s", clip(strings.Join(h.dirty, " ")), clip(strings.Join(h.later, " ")))
-	// what a Proto would transmit for the recycled message vs the new one (not part of the case
-	// line: the wire format is C05's model); then the getters again, since Pack writes size/status
-	pr, pf := packRaw(rec), packRaw(fresh)
-	if pr != pf {
-		st.Fail(idx, "recycled-differs:pack", "a recycled message packs to different bytes than a new one with the same later calls: recycled="+clip(pr)+" fresh="+clip(pf), h.human)
-	}
-	if a, b := showMsg(rec, true), showMsg(fresh, true); a != b {
-		st.Fail(idx, "recycled-differs:after-pack", "getters differ after Pack: recycled="+clip(a)+" fresh="+clip(b), h.human)
-	}
-	if pr == "err" {
+	if strings.HasSuffix(h.obs[len(h.obs)-2], "err") {
 		st.Count("msg-pack:error")
 	} else {
 		st.Count("msg-pack:ok")
